@@ -39,6 +39,8 @@ func init() {
 			ruleC11M13(r)
 			ruleC11M14(r)
 			ruleC11M15(r)
+			ruleInjectiveKeys(r, "M16", "/encoding", "/message", "/wire", "/iscp", "/transport")
+			ruleReaderOnlyConsumed(r, "M17")
 		},
 	})
 }
@@ -391,6 +393,55 @@ func rulePoolReset(r *Run, id string) {
 						}
 					}
 				})
+			}
+			// or the object is reset when it is taken out: the value put back is (a phi of a fresh object and) the
+			// result of a Get on which — or on a buffer inside which — Reset is called before the Put, on the edge where
+			// the Get returned something
+			if !ok {
+				var gets []ssa.Value
+				var collect func(v ssa.Value, d int)
+				collect = func(v ssa.Value, d int) {
+					if d > 4 {
+						return
+					}
+					switch x := v.(type) {
+					case *ssa.Phi:
+						for _, e := range x.Edges {
+							collect(e, d+1)
+						}
+					case *ssa.Extract:
+						collect(x.Tuple, d+1)
+					case *ssa.TypeAssert:
+						if c, isC := x.X.(*ssa.Call); isC && isCallNamed(c, "sync.Pool.Get") {
+							gets = append(gets, v)
+						}
+					}
+				}
+				collect(buf, 0)
+				for _, g := range gets {
+					allInstrs(fn, func(x ssa.Instruction) {
+						c, isCall := x.(*ssa.Call)
+						if !isCall || len(c.Call.Args) == 0 {
+							return
+						}
+						o := calleeObj(&c.Call)
+						if o == nil || o.Name() != "Reset" {
+							return
+						}
+						root := objectRoot(c.Call.Args[0])
+						if ex, isEx := root.(*ssa.Extract); isEx {
+							root = ex.Tuple
+						}
+						if gv, isEx := g.(*ssa.Extract); isEx {
+							g = gv.Tuple
+						}
+						if root == g || root == target {
+							if _, isBuf := deref(c.Call.Args[0].Type()).(*types.Named); isBuf && strings.HasSuffix(deref(c.Call.Args[0].Type()).String(), "bytes.Buffer") {
+								ok = true
+							}
+						}
+					})
+				}
 			}
 			r.Check(fmt.Sprintf("%s Put#%d", name, n), ok, posOf(p, ins), name, "the buffer returned to the pool must have been Reset() on every path (a directly deferred Put, or a Put without a dominating Reset, recycles stale bytes)")
 		})
@@ -850,4 +901,156 @@ func ruleC11M15(r *Run) {
 	if n == 0 {
 		r.Check("absent-guards on sub-fields", true, "", "", "no converter returns early on a nil sub-field of its argument")
 	}
+}
+
+// ruleInjectiveKeys: the key of a table (a Go map, a sync.Map) stands for the value it was computed from. A key glued
+// together from two or more variable strings (a + ":" + b) does not: ("a:b","c") and ("a","b:c") collide, and the second
+// value is served the first one's entry. Keys of more than one variable part are struct values (comparable, injective).
+func ruleInjectiveKeys(r *Run, id string, pkgs ...string) {
+	r.Begin(id, "table keys are injective: no key of a map lookup/update/delete or of a sync.Map operation is a concatenation of two or more variable strings", 0)
+	p := r.P
+	varParts := func(v ssa.Value) int {
+		n := 0
+		var walk func(v ssa.Value, d int)
+		walk = func(v ssa.Value, d int) {
+			if d > 8 {
+				return
+			}
+			if mi, ok := v.(*ssa.MakeInterface); ok {
+				walk(mi.X, d+1)
+				return
+			}
+			if bo, ok := v.(*ssa.BinOp); ok && bo.Op == token.ADD {
+				if b, isB := bo.Type().Underlying().(*types.Basic); isB && b.Info()&types.IsString != 0 {
+					walk(bo.X, d+1)
+					walk(bo.Y, d+1)
+					return
+				}
+			}
+			if _, isK := v.(*ssa.Const); !isK {
+				if b, isB := v.Type().Underlying().(*types.Basic); isB && b.Info()&types.IsString != 0 {
+					n++
+				}
+			}
+		}
+		if bo, ok := v.(*ssa.BinOp); ok && bo.Op == token.ADD {
+			walk(bo, 0)
+		} else if mi, ok := v.(*ssa.MakeInterface); ok {
+			if bo, ok := mi.X.(*ssa.BinOp); ok && bo.Op == token.ADD {
+				walk(bo, 0)
+			}
+		}
+		return n
+	}
+	n := 0
+	for _, fn := range p.Funcs {
+		okPkg := false
+		for _, pk := range pkgs {
+			if strings.HasPrefix(fnPkgPath(fn), modPath+pk) {
+				okPkg = true
+			}
+		}
+		if !okPkg || fn.Blocks == nil {
+			continue
+		}
+		k := 0
+		allInstrs(fn, func(ins ssa.Instruction) {
+			var key ssa.Value
+			switch x := ins.(type) {
+			case *ssa.Lookup:
+				if _, isMap := x.X.Type().Underlying().(*types.Map); isMap {
+					key = x.Index
+				}
+			case *ssa.MapUpdate:
+				key = x.Key
+			default:
+				if cc := instrCall(ins); cc != nil {
+					if b, isB := cc.Value.(*ssa.Builtin); isB && b.Name() == "delete" && len(cc.Args) == 2 {
+						key = cc.Args[1]
+					} else if o := calleeObj(cc); o != nil && o.Pkg() != nil && o.Pkg().Path() == "sync" && recvNamed(o) == "Map" && len(cc.Args) >= 2 {
+						switch o.Name() {
+						case "Load", "Store", "LoadOrStore", "LoadAndDelete", "Delete", "Swap", "CompareAndSwap", "CompareAndDelete":
+							key = cc.Args[1]
+						}
+					}
+				}
+			}
+			if key == nil {
+				return
+			}
+			n++
+			if parts := varParts(canonVal(key)); parts >= 2 {
+				k++
+				r.Check(fmt.Sprintf("%s key#%d", fnName(fn), k), false, posOf(p, ins), fnName(fn), fmt.Sprintf("the key is glued together from %d variable strings: two different tuples can give the same key; use a struct value as the key", parts))
+			} else if v := canonVal(key); v != key {
+				if parts := varParts(v); parts >= 2 {
+					k++
+					r.Check(fmt.Sprintf("%s key#%d", fnName(fn), k), false, posOf(p, ins), fnName(fn), fmt.Sprintf("the key is glued together from %d variable strings", parts))
+				}
+			}
+		})
+	}
+	r.Stat("keyed_operations", n)
+	r.Check("keyed operations examined", n > 0, "", "", fmt.Sprintf("%d map / sync.Map operations examined", n))
+}
+
+// ruleReaderOnlyConsumed: DecodeFrom reports how many bytes it consumed from the reader. Where an implementation
+// recognises the concrete type behind the io.Reader (a fast path for *bytes.Buffer, *bytes.Reader, …), it may take the
+// bytes out of it only with consuming methods; Bytes(), String() and the like hand out the content and leave it in the
+// reader, so the reported count is not what was consumed.
+func ruleReaderOnlyConsumed(r *Run, id string) {
+	r.Begin(id, "a decoder consumes what it reports: in every DecodeFrom of the encoding packages, a concrete value obtained from the io.Reader parameter by a type assertion is used only through consuming methods (Read*, Next, WriteTo, Len, Size)", 0)
+	p := r.P
+	consuming := map[string]bool{"Read": true, "ReadByte": true, "ReadBytes": true, "ReadRune": true, "ReadString": true, "Next": true, "WriteTo": true, "Len": true, "Size": true, "Cap": true, "Available": true}
+	n := 0
+	for _, fn := range p.Funcs {
+		if !strings.HasPrefix(fnPkgPath(fn), modPath+"/encoding") || topFunc(fn).Name() != "DecodeFrom" || fn.Blocks == nil {
+			continue
+		}
+		n++
+		top := topFunc(fn)
+		allInstrs(fn, func(ins ssa.Instruction) {
+			ta, ok := ins.(*ssa.TypeAssert)
+			if !ok || !types.Implements(ta.X.Type(), ioReaderIface(p)) {
+				return
+			}
+			if _, isIface := ta.AssertedType.Underlying().(*types.Interface); isIface {
+				return
+			}
+			var val ssa.Value = ta
+			if ta.CommaOk && ta.Referrers() != nil {
+				for _, ref := range *ta.Referrers() {
+					if ex, isEx := ref.(*ssa.Extract); isEx && ex.Index == 0 {
+						val = ex
+					}
+				}
+			}
+			if val.Referrers() == nil {
+				return
+			}
+			for _, ref := range *val.Referrers() {
+				cc := instrCall(ref)
+				if cc == nil || len(cc.Args) == 0 || cc.Args[0] != val {
+					continue
+				}
+				o := calleeObj(cc)
+				if o == nil || consuming[o.Name()] {
+					continue
+				}
+				r.Check(fmt.Sprintf("%s uses the reader through %s", fnName(top), o.Name()), false, posOf(p, ref), fnName(top), fmt.Sprintf("%s.%s hands out the content of the reader without consuming it: the byte count DecodeFrom reports is then not the number of bytes taken from the reader", ta.AssertedType.String(), o.Name()))
+			}
+		})
+	}
+	r.Check("DecodeFrom implementations examined", n > 0, "", "", fmt.Sprintf("%d", n))
+}
+
+func ioReaderIface(p *Prog) *types.Interface {
+	for _, pk := range p.SSA.AllPackages() {
+		if pk.Pkg.Path() == "io" {
+			if o := pk.Pkg.Scope().Lookup("Reader"); o != nil {
+				return o.Type().Underlying().(*types.Interface)
+			}
+		}
+	}
+	return types.NewInterfaceType(nil, nil)
 }
